@@ -150,7 +150,9 @@ def contracts():
           'implies(position <= len(collection), result == '
           'collection[:position] + (value,) + collection[position:])',
           'implies(position > len(collection), result == collection + '
-          '(value,))'], serves=('C13',))
+          '(value,))',
+          # a yaql list (hashable: usable as a set member / dict key)
+          'type(result) is tuple'], serves=('C13',))
     c(C + 'to_list', params=dict(collection=IT),
       ensures=['result == old_collection.seq'], serves=('C13',))
     # ---- searches: stop at the first hit -------------------------------------
@@ -881,6 +883,8 @@ def merge_contracts():
             # keys: union; keys of one side only keep their value
             'len(result) == 3 and result["b"] == V2_b and '
             'result["c"] == V1_c',
+            # a yaql dict (hashable: usable as a set member / dict key)
+            'isinstance(result, "FrozenDict")',
             # a nested mapping is merged recursively with the SAME mergers
             # and one level less of the depth budget (0 = unlimited)
             'implies(max_levels != 1 and %s, len(%s) == 1 and '
@@ -1059,7 +1063,8 @@ def dict_builder_contracts():
           params=dict(collection=IT, engine=TVal, key_selector=TFunc(1),
                       value_selector=TFunc(1) if vsel else None),
           track_pulls='collection',
-          ensures=[keys % L, last % (L, L)],
+          ensures=[keys % L, last % (L, L),
+                   'isinstance(result, "FrozenDict")'],
           loops=[dict(anchor='for t in collection', index='n',
                       invariant=['SRC.pos == n', keys % 'n',
                                  last % ('n', 'n')])])
